@@ -9,6 +9,7 @@ import (
 	"github.com/moorara/algo/automata"
 	"github.com/moorara/algo/generic"
 	"github.com/moorara/algo/grammar"
+	"github.com/moorara/algo/graph"
 	"github.com/moorara/algo/hash"
 	"github.com/moorara/algo/heap"
 	"github.com/moorara/algo/lexer/input"
@@ -30,7 +31,7 @@ import (
 // packages' entry points run against one another.
 var mixedOrder = []string{"hashtable-iterate", "lr-slr", "set-iterate", "automata-determinize", "first-follow",
 	"lr-lalr", "grammar-transform", "ll1-table", "lr-canonical", "structures", "hash-api", "ordered-tables",
-	"tries", "heaps", "lexer-input"}
+	"tries", "heaps", "lexer-input", "graphs-dot"}
 
 func init() {
 	workloads["hashtable-iterate"] = wHashTables
@@ -48,6 +49,7 @@ func init() {
 	workloads["lexer-input"] = wLexerInput
 	workloads["structures"] = wStructures
 	workloads["hash-api"] = wHashAPI
+	workloads["graphs-dot"] = wGraphsDot
 }
 
 // yield lets the other goroutines run: with it the goroutines interleave inside the fill loops at every
@@ -773,6 +775,46 @@ func wLexerInput(seed uint64) *result {
 		}
 		res.add("input n=%d runes %d lexemes %d line %d", n, runes, lexemes, lastLine)
 	}
+	return res
+}
+
+// ---------------------------------------------------------------- graphs and everything that renders DOT
+
+func wGraphsDot(seed uint64) *result {
+	r := newRng(seed)
+	res := &result{}
+	n := pickSize(r, 200) + 1
+	ug := graph.NewUndirected(n)
+	dg := graph.NewDirected(n)
+	for i := 0; i < 2*n; i++ {
+		v, w := r.intn(n), r.intn(n)
+		ug.AddEdge(v, w)
+		if v < w { // acyclic
+			dg.AddEdge(v, w)
+		}
+		if i%16 == 0 {
+			yield()
+		}
+	}
+	res.add("undirected n=%d E=%d deg0=%d dot=%d", n, ug.E(), ug.Degree(0), len(ug.DOT()))
+	yield()
+	res.add("directed E=%d out0=%d rev=%d dot=%d", dg.E(), dg.OutDegree(0), dg.Reverse().E(), len(dg.DOT()))
+	res.add("components %v %v %v", ug.ConnectedComponents() != nil, dg.StronglyConnectedComponents() != nil, dg.Topological() != nil)
+	// the structures that draw themselves
+	cmpI := generic.NewCompareFunc[int]()
+	eqI := generic.NewEqualFunc[int]()
+	h := heap.NewBinomial[int, int](cmpI, eqI)
+	f := heap.NewFibonacci[int, int](cmpI, eqI)
+	for i := 0; i < 20; i++ {
+		h.Insert(r.intn(100), i)
+		f.Insert(r.intn(100), i)
+	}
+	f.Delete()
+	res.add("heap dot %d %d", len(h.DOT()), len(f.DOT()))
+	N := automata.NewNFA(0, []automata.State{2})
+	N.Add(0, 'a', []automata.State{0, 1})
+	N.Add(1, 'b', []automata.State{2})
+	res.add("automata dot %d %d", len(N.DOT()), len(N.ToDFA().DOT()))
 	return res
 }
 
